@@ -207,6 +207,13 @@ struct vp_fault_stats {
 };
 void vp_fault_stats_get(struct vp_fault_stats *s);
 
+/* pthread_create() fault: while the calling thread has vp_create_fail_armed set, the
+ * --wrap=pthread_create shim returns EAGAIN with probability vp_create_fail_prob / 2^20 (the
+ * library's partitioned hash-table resize documents a fallback for exactly that error) */
+extern __thread int vp_create_fail_armed;
+extern uint32_t vp_create_fail_prob;
+extern uint64_t vp_create_fail_injected;
+
 /* ---------------------------------------------------------------- chaos signals */
 
 /* worker threads call this once; chaos thread may then signal them */
